@@ -1,3 +1,154 @@
-(* C13 — A block's hash pins down its stored bytes and its effect. Statements only. *)
-From ZV Require Import Prelude Block CodecPb Dec BlockAccept.
+(* C13 — A block's hash pins down its stored bytes and its effect; codecs round-trip.
+   Only statements; each is closed by a lemma proved in theories/.
+   H = SHA3-256 (types.NewHash), verify = ed25519.Verify, pk_addr = types.PubKeyToAddress are
+   uninterpreted; ctx_* are the parts of verification / execution that read covered fields only. *)
+From Coq Require Import Permutation.
+From ZV Require Import Prelude PoWProofs Block BlockProofs CodecPb CodecPbProofs Dec DecProofs BlockAccept BlockAcceptProofs.
 Open Scope Z_scope.
+
+(* the pre-image of AccountBlock.ComputeHash determines every covered field *)
+Theorem C13_preimage_injective : forall (H : bytes -> bytes),
+  (forall x, length (H x) = 32%nat) ->
+  forall x y : AB, ab_wf x -> ab_wf y ->
+  (H (desc_source x) = H (desc_source y) -> desc_source x = desc_source y) ->
+  (H (ab_data (body x)) = H (ab_data (body y)) -> ab_data (body x) = ab_data (body y)) ->
+  ab_preimage H x = ab_preimage H y -> ab_covered x = ab_covered y.
+Proof. exact ab_preimage_injective. Qed.
+
+(* same for Momentum.ComputeHash: version, chain id, previous, height, timestamp, data, content, changes hash *)
+Theorem C13_momentum_preimage_injective : forall (H : bytes -> bytes),
+  (forall x, length (H x) = 32%nat) ->
+  forall m n : Mom, mom_wf m -> mom_wf n ->
+  (H (m_data m) = H (m_data n) -> m_data m = m_data n) ->
+  (H (content_bytes (m_content m)) = H (content_bytes (m_content n)) ->
+   content_bytes (m_content m) = content_bytes (m_content n)) ->
+  mom_preimage H m = mom_preimage H n -> mom_covered m = mom_covered n.
+Proof. exact mom_preimage_injective. Qed.
+
+(* DeserializeAccountBlock (b.Serialize()) = b for every block with its whole descendant tree
+   (every field survives, so the hash is preserved) *)
+Theorem C13_pb_roundtrip : forall x : AB, pb_ok x -> deserialize_ab (serialize_ab x) = DOk x.
+Proof. exact ab_pb_roundtrip. Qed.
+
+Theorem C13_pb_roundtrip_momentum : forall m : Mom, mom_ok m -> deserialize_mom (serialize_mom m) = DOk m.
+Proof. exact mom_pb_roundtrip. Qed.
+
+(* the wire bytes determine the block: two different blocks never serialize to the same bytes *)
+Theorem C13_serialize_injective : forall x y : AB, pb_ok x -> pb_ok y -> serialize_ab x = serialize_ab y -> x = y.
+Proof. exact serialize_ab_inj. Qed.
+
+(* JSON scalars: amount as decimal text, hash / nonce as hex text, for every integer / byte string *)
+Theorem C13_json_scalars :
+  (forall z : Z, parse_dec (print_dec z) = z) /\
+  (forall b : bytes, Forall byte b -> hex_dec (hex_enc b) = Some b) /\
+  (forall h : bytes, Forall byte h -> length h = 32%nat -> parse_hash (hex_enc h) = Some h) /\
+  (forall n : bytes, Forall byte n -> length n = 8%nat -> parse_nonce (hex_enc n) = Some n).
+Proof. exact (conj parse_print_dec (conj hex_roundtrip (conj hash_text_roundtrip nonce_text_roundtrip))). Qed.
+
+(* NewMomentumContent: the content does not depend on the order in which the blocks are handed in *)
+Theorem C13_content_order_canonical : forall hs hs' : list AHeader,
+  (forall x y, In x hs -> In y hs -> aheader_bytes x = aheader_bytes y -> x = y) ->
+  Permutation hs hs' -> new_momentum_content hs = new_momentum_content hs'.
+Proof. exact (sort_by_perm_invariant aheader_bytes). Qed.
+
+(* an accepted user block is stored as delivered except BasePlasma / TotalPlasma, which are
+   functions of the covered fields and the context (vm.enoughPlasma overwrites them) *)
+Theorem C13_recomputed_fields : forall H verify pk_addr ctx_plasma ctx_rest (x s : AB),
+  accept_user H verify pk_addr ctx_plasma ctx_rest x = Some s ->
+  exists total base, ctx_plasma (ab_covered x) = Some (total, base) /\
+    ab_base (body s) = base /\ ab_total (body s) = total /\
+    s = ABNode (set_plasma (body x) base total) [].
+Proof. exact recomputed_fields. Qed.
+
+(* two accepted user blocks with the same hash and the same (ChangesHash, PublicKey, Signature):
+   same stored block, same patch, same stored bytes. Partial: the hypothesis on ChangesHash excludes
+   exactly the known finding below. *)
+Theorem C13_effect_pinned_partial : forall (H : bytes -> bytes),
+  (forall x, length (H x) = 32%nat) ->
+  forall verify pk_addr ctx_plasma ctx_rest ctx_patch (x1 x2 s1 : AB) p1 w1 (s2 : AB) p2 w2,
+  accept_user_tx H verify pk_addr ctx_plasma ctx_rest ctx_patch x1 = Some (s1, p1, w1) ->
+  accept_user_tx H verify pk_addr ctx_plasma ctx_rest ctx_patch x2 = Some (s2, p2, w2) ->
+  ab_wf x1 -> ab_wf x2 ->
+  collision_free H (inputs_of H x1 ++ inputs_of H x2) ->
+  ab_hash (body x1) = ab_hash (body x2) ->
+  ab_changes (body x1) = ab_changes (body x2) -> ab_pk (body x1) = ab_pk (body x2) ->
+  ab_sig (body x1) = ab_sig (body x2) ->
+  s1 = s2 /\ p1 = p2 /\ w1 = w2.
+Proof. exact effect_pinned. Qed.
+
+(* known finding F10 (user-block-changeshash-variant): every accepted user block has, for every other
+   32-byte ChangesHash, a variant that anyone can produce (same hash, same signature), that is accepted
+   with the same patch, and whose stored bytes differ *)
+Theorem C13_variant_refuted : forall H verify pk_addr ctx_plasma ctx_rest ctx_patch (x s : AB) p w ch,
+  accept_user_tx H verify pk_addr ctx_plasma ctx_rest ctx_patch x = Some (s, p, w) ->
+  pb_ok s -> blen 32 ch -> ch <> ab_changes (body x) ->
+  let x' := ABNode (set_changes (body x) ch) (desc x) in
+  exists s' w', accept_user_tx H verify pk_addr ctx_plasma ctx_rest ctx_patch x' = Some (s', p, w') /\
+                ab_hash (body x') = ab_hash (body x) /\ w' <> w.
+Proof. exact changeshash_variant. Qed.
+
+(* contract receive, code after fix 3d79e01: the accepted block and each of its descendants agree with
+   the block the node regenerates on every covered field (amount, recipient, token, data, ...) *)
+Theorem C13_contract_receive_pinned : forall (H : bytes -> bytes),
+  (forall x, length (H x) = 32%nat) ->
+  forall desc_rest (g x s : AB),
+  accept_cr H desc_rest (Some g) x = Some s ->
+  ab_wf x -> ab_wf g -> Forall ab_wf (desc x) -> Forall ab_wf (desc g) ->
+  Forall (fun e => H (ab_preimage H e) = ab_hash (body e)) (desc g) ->
+  collision_free H (inputs_of H x ++ inputs_of H g) ->
+  collision_free H (flat_map (inputs_of H) (desc x) ++ flat_map (inputs_of H) (desc g)) ->
+  s = x /\ ab_covered x = ab_covered g /\ ab_changes (body x) = ab_changes (body g) /\
+  map ab_covered (desc x) = map ab_covered (desc g).
+Proof. exact contract_receive_pinned. Qed.
+
+(* record of the defect fixed by 3d79e01: the code before it accepted ANY first descendant that kept
+   the Hash field (and passed the stateless per-descendant checks), whatever its amount or recipient *)
+Theorem C13_descendant_forgery_refuted : forall H desc_rest (g d : AB) ds (d' : AB),
+  accept_cr_nofix H desc_rest (Some g) g = Some g -> desc g = d :: ds ->
+  ab_hash (body d') = ab_hash (body d) -> desc_rest (ab_covered d') = true ->
+  accept_cr_nofix H desc_rest (Some g) (ABNode (body g) (d' :: ds)) = Some (ABNode (body g) (d' :: ds)).
+Proof. exact descendant_forgery_nofix. Qed.
+
+(* known finding (contract-block-uncovered-fields-variant): the plasma fields of an accepted contract
+   receive can be replaced by anyone; still accepted, same hash, different stored bytes *)
+Theorem C13_contract_uncovered_refuted : forall H desc_rest (g x : AB) base total,
+  accept_cr H desc_rest (Some g) x = Some x -> pb_ok x ->
+  is_u64 base -> is_u64 total -> (base, total) <> (ab_base (body x), ab_total (body x)) ->
+  let x' := ABNode (set_plasma (body x) base total) (desc x) in
+  accept_cr H desc_rest (Some g) x' = Some x' /\ ab_hash (body x') = ab_hash (body x) /\
+  serialize_ab x' <> serialize_ab x.
+Proof. exact contract_uncovered_variant. Qed.
+
+(* ---- non-vacuity *)
+Example C13_shape_example : pb_ok ex_block.
+Proof. exact ex_block_ok. Qed.
+Example C13_roundtrip_example : deserialize_ab (serialize_ab ex_block) = DOk ex_block.
+Proof. vm_compute. reflexivity. Qed.
+(* an accepted user block exists for some instantiation of the oracles *)
+Definition ex_H (_ : bytes) : bytes := repeat 7 32.
+Definition ex_user : AB :=
+  ABNode (mkABody 1 3 2 (repeat 7 32) (repeat 0 32) 2 (repeat 1 32) 9 (0 :: repeat 2 19) (repeat 3 20) 100 (repeat 4 10)
+                  (repeat 0 32) [1; 2; 3] 21000 0 (repeat 0 8) 0 0 (repeat 8 32) (repeat 5 32) (repeat 6 64)) [].
+Example C13_accept_example :
+  accept_user ex_H (fun _ _ _ => true) (fun _ => 0 :: repeat 2 19) (fun _ => Some (21000, 21204)) (fun _ => true) ex_user
+  = Some (ABNode (set_plasma (body ex_user) 21204 21000) []).
+Proof. vm_compute. reflexivity. Qed.
+(* a forged descendant (7777 instead of 50, Hash field kept) passes the pre-fix acceptance and is refused by the
+   fixed one, while the regenerated block itself is accepted; the hash here is a toy function of the input *)
+Definition ex_Hsum (b : bytes) : bytes := repeat (1 + fold_right Z.add 0 b) 32.
+Definition mk_desc (amount : Z) (h : bytes) : AB :=
+  ABNode (mkABody 1 3 4 h (repeat 0 32) 2 (repeat 1 32) 9 (1 :: repeat 2 19) (repeat 3 20) amount (repeat 4 10)
+                  (repeat 0 32) [] 0 0 (repeat 0 8) 0 0 (repeat 0 32) [] []) [].
+Definition d50 : AB := mk_desc 50 (ex_Hsum (ab_preimage ex_Hsum (mk_desc 50 []))).
+Definition d7777 : AB := mk_desc 7777 (ab_hash (body d50)).
+Definition mk_cr (h : bytes) (ds : list AB) : AB :=
+  ABNode (mkABody 1 3 5 h (repeat 0 32) 3 (repeat 1 32) 9 (1 :: repeat 2 19) (repeat 0 20) 0 (repeat 0 10)
+                  (repeat 9 32) [0; 0; 0; 0; 0; 0; 0; 1] 0 0 (repeat 0 8) 0 0 (repeat 8 32) [] []) ds.
+Definition ex_gen : AB := mk_cr (ex_Hsum (ab_preimage ex_Hsum (mk_cr [] [d50]))) [d50].
+Definition ex_forged : AB := mk_cr (ab_hash (body ex_gen)) [d7777].
+Example C13_forgery_example :
+  (accept_cr_nofix ex_Hsum (fun _ => true) (Some ex_gen) ex_forged = Some ex_forged) /\
+  (accept_cr ex_Hsum (fun _ => true) (Some ex_gen) ex_forged = None) /\
+  (accept_cr ex_Hsum (fun _ => true) (Some ex_gen) ex_gen = Some ex_gen) /\
+  (map (fun d => cv_amount (ab_covered d)) (desc ex_forged) <> map (fun d => cv_amount (ab_covered d)) (desc ex_gen)).
+Proof. vm_compute. repeat split; try reflexivity. discriminate. Qed.
